@@ -39,6 +39,9 @@ def gen(rng, tier):
             yield case
             continue
         case = FU.gen_form_case(rng, tier, heur_p=0.5)
+        if k % 13 == 9:
+            case = FU.gen_raising_seq_case(rng)      # the heuristic raises after it has started to change the object
+            case["strict"] = rng.random() < 0.5
         if k % 5 == 4:
             # heuristic-sensitive shape: a customer that can leave for the depot but cannot be entered from it, with the
             # caches already filled by earlier queries
@@ -78,8 +81,22 @@ def run_case(case, drv, nmax=None):
                      f"source:{'mirp-getter' if case.get('mirp') is not None else 'vrptw'}",
                      f"rho:{case['rho']}"]
     if outcome not in (None, "ok"):
-        # the heuristic failed loudly (C09's business); the object keeps a consistent instance state only if it had not started changing it
+        # the heuristic failed loudly (C09's business); the object it leaves behind is still an instance with variables, for which the
+        # data and the QUBO must be produced
         res.nontrivial = False
+        try:
+            n_after = int(o.get_num_variables())
+        except Exception as e:  # noqa
+            res.fail(f"{form}:numvars-raises", f"get_num_variables raised {e!r} after a heuristic that raised")
+            return res
+        if n_after >= 1:
+            try:
+                VU.impl_data(o)
+                VU.qubo_dense(o, case["feas"], None)
+                res.features.append("qubo-after-failed-heuristic:ok")
+            except Exception as e:  # noqa
+                res.fail(f"{form}:qubo-after-failed-heuristic", f"after make_feasible raised ({outcome[:60]}) the object has {n_after} variable(s) but its "
+                                                               f"data / QUBO getters raise {e!r}")
         return res
     rho = None if case["rho"] is None else Fraction(case["rho"])
     # ---------------- implementation
